@@ -31,23 +31,36 @@ func init() {
 }
 
 type c18Method struct {
-	name   string
+	name   string // label (unique)
 	params func(w *c18World) interface{}
+	method string // RPC method if it differs from the label
+}
+
+func (m c18Method) rpc() string {
+	if m.method != "" {
+		return m.method
+	}
+	return m.name
 }
 
 func c18Methods() []c18Method {
 	return []c18Method{
-		{"get-rich-list", func(w *c18World) interface{} { return map[string]interface{}{"asset": "pUSD", "count": 5} }},
-		{"get-global-rich-list", func(w *c18World) interface{} { return map[string]interface{}{"count": 5} }},
-		{"get-sync-status", func(w *c18World) interface{} { return nil }},
-		{"get-pegnet-issuance", func(w *c18World) interface{} { return nil }},
-		{"get-pegnet-balances", func(w *c18World) interface{} { return map[string]interface{}{"address": AddrA.String()} }},
-		{"get-transactions", func(w *c18World) interface{} { return map[string]interface{}{"address": AddrA.String(), "desc": true} }},
-		{"get-pegnet-rates", func(w *c18World) interface{} { return nil }},
-		{"get-bank", func(w *c18World) interface{} { return nil }},
-		{"get-graded", func(w *c18World) interface{} { return nil }},
-		{"get-miner-distribution", func(w *c18World) interface{} { return map[string]interface{}{"start": 0, "stop": -3} }},
-		{"get-transaction-status", func(w *c18World) interface{} { return map[string]interface{}{"entryhash": w.convHash} }},
+		{"get-rich-list", func(w *c18World) interface{} { return map[string]interface{}{"asset": "pUSD", "count": 5} }, ""},
+		{"get-global-rich-list", func(w *c18World) interface{} { return map[string]interface{}{"count": 5} }, ""},
+		{"get-sync-status", func(w *c18World) interface{} { return nil }, ""},
+		{"get-pegnet-issuance", func(w *c18World) interface{} { return nil }, ""},
+		{"get-pegnet-balances", func(w *c18World) interface{} { return map[string]interface{}{"address": AddrA.String()} }, ""},
+		{"get-transactions", func(w *c18World) interface{} { return map[string]interface{}{"address": AddrA.String(), "desc": true} }, ""},
+		{"get-pegnet-rates", func(w *c18World) interface{} { return nil }, ""},
+		{"get-bank", func(w *c18World) interface{} { return nil }, ""},
+		{"get-graded", func(w *c18World) interface{} { return nil }, ""},
+		{"get-miner-distribution", func(w *c18World) interface{} { return map[string]interface{}{"start": 0, "stop": -3} }, ""},
+		{"get-transaction-status", func(w *c18World) interface{} { return map[string]interface{}{"entryhash": w.convHash} }, ""},
+		// requests that name a height the sync loop has not committed yet (the block in flight, and the one after it)
+		{"get-pegnet-rates@next", func(w *c18World) interface{} { return map[string]interface{}{"height": w.h0 + 1} }, "get-pegnet-rates"},
+		{"get-pegnet-rates@next+1", func(w *c18World) interface{} { return map[string]interface{}{"height": w.h0 + 2} }, "get-pegnet-rates"},
+		{"get-transactions@height=next", func(w *c18World) interface{} { return map[string]interface{}{"height": w.h0 + 1} }, "get-transactions"},
+		{"get-graded@next", func(w *c18World) interface{} { return map[string]interface{}{"height": w.h0 + 1} }, "get-graded"},
 	}
 }
 
@@ -83,7 +96,11 @@ func newC18World() *c18World {
 	w.convHash = fmt.Sprintf("%x", eh[:])
 	w.h0 = b.Chain.Tip()
 	// the two blocks S will apply
-	b.Add(drive.BlockSpec{Rates: R2(), OPRPayTo: kit.AddrStr(KM), TX: []fake.Entry{b.Tx(KA, kit.Conversion(AddrA, "pUSD", 7e8, "pEUR"), kit.Transfer(AddrA, "pUSD", 3e8, AddrB))}})
+	// the second entry converts FROM the asset whose spot rate in the executing block lies above its rolling average,
+	// so that the credited amount depends on the averaging window (anything that disturbs the window shows in the ledger)
+	b.Add(drive.BlockSpec{Rates: R2(), OPRPayTo: kit.AddrStr(KM), TX: []fake.Entry{
+		b.Tx(KA, kit.Conversion(AddrA, "pUSD", 7e8, "pEUR"), kit.Transfer(AddrA, "pUSD", 3e8, AddrB)),
+		b.Tx(KA, kit.Conversion(AddrA, "pEUR", 5e8, "pUSD"))}})
 	b.Add(drive.BlockSpec{Rates: R1(), OPRPayTo: kit.AddrStr(KM)})
 	w.tip = b.Chain.Tip()
 	// uninterrupted run without API threads: start state (db + cache) and per-height copies
@@ -117,7 +134,7 @@ func newC18World() *c18World {
 			if err != nil {
 				panic(err)
 			}
-			w.ref[h][m.name] = c18Call(newAPI(rd), m.name, m.params(w))
+			w.ref[h][m.name] = c18Call(newAPI(rd), m.rpc(), m.params(w))
 			rd.Close()
 			os.RemoveAll(fmt.Sprintf("%s/ref-%d-%s", w.dir, h, m.name))
 		}
@@ -255,7 +272,7 @@ func (w *c18World) execute(methods []c18Method, prefix []int, allVisible bool) *
 		s.Go("api-"+m.name, func() {
 			s.Yield(sched.Point{Info: "enter " + m.name, Visible: true})
 			call := s.Now()
-			resp := c18Call(api, m.name, m.params(w))
+			resp := c18Call(api, m.rpc(), m.params(w))
 			ret := s.Now()
 			mu.Lock()
 			ex.events = append(ex.events, c18Event{client: i + 1, input: "read " + m.name, output: resp, call: call, ret: ret})
